@@ -1,7 +1,7 @@
 (* Not part of the build: run by the check only when the source-level theorems (Props/C01src.v, C02src.v) no longer
    check.  Evaluates the regenerated translation of the Go source against the wire model on boundary inputs and prints
    the inputs on which they differ (a search for a concrete failing input, not a proof). *)
-From CsProto Require Import Prelude Varint ZigZag Codec GoSem SrcWire SrcLink SrcDecoderLink.
+From CsProto Require Import Prelude Varint ZigZag Codec GoSem SrcWire SrcLink SrcDecoderLink SrcEncoderLink.
 Local Open Scope Z_scope.
 
 Definition pows : list Z := flat_map (fun k => [2^k - 1; 2^k; 2^k + 1]) (map Z.of_nat (seq 0 64)).
@@ -108,3 +108,30 @@ Definition res_sweep_Decoder_DecodeFixed64 := Eval vm_compute in sweep_Decoder_D
 Definition res_sweep_Decoder_decodeBytes := Eval vm_compute in sweep_Decoder_decodeBytes. Print res_sweep_Decoder_decodeBytes.
 Definition res_sweep_Decoder_Skip := Eval vm_compute in sweep_Decoder_Skip. Print res_sweep_Decoder_Skip.
 Definition res_sweep_Decoder_Seek := Eval vm_compute in sweep_Decoder_Seek. Print res_sweep_Decoder_Seek.
+
+(* ---- the Encoder methods against the model's encoder step: buffers of 0..16 cells, every cursor up to one past the end *)
+Definition encs : list encoder := flat_map (fun n => map (fun o => {| ebuf := repeat 165%N n; eoff := o |}) (seq 0 (n + 2))) [0; 1; 2; 3; 6; 7; 11; 12; 16]%nat.
+Definition etags := [1; 15; 16; 2047; 2048; 536870911].
+Definition oeq (x y : option (outcome encoder)) := match x, y with
+ | Some (Ok a), Some (Ok b) => lneq (ebuf a) (ebuf b) && (eoff a =? eoff b)%nat | Some Panic, Some Panic => true | _, _ => false end.
+Definition eshow (e : encoder) := (List.length (ebuf e), eoff e).
+Definition esw (go : nat -> list Z -> Z -> Z -> Z -> gores (unit * list Z * Z)) (k : skind) (vs : list Z) :=
+  map (fun '(e, tv) => (eshow e, tv)) (filter (fun '(e, (t, v)) => negb (oeq (abs_enc (go 12%nat (est_p e) (est_off e) t v)) (Some (enc_scalar e k (Z.to_N t) v)))) (list_prod encs (list_prod etags vs))).
+Definition sweep_Encoder_EncodeBool := map (fun '(e, tv) => (eshow e, tv)) (filter (fun '(e, (t, b)) =>
+  negb (oeq (abs_enc (go_Encoder_EncodeBool 12 (est_p e) (est_off e) t b)) (Some (enc_scalar e KBool (Z.to_N t) (conv_b b))))) (list_prod encs (list_prod etags [true; false]))).
+Definition sweep_Encoder_EncodeUInt32 := esw go_Encoder_EncodeUInt32 KUInt32 [0; 1; 127; 128; 2^32 - 1].
+Definition sweep_Encoder_EncodeUInt64 := esw go_Encoder_EncodeUInt64 KUInt64 [0; 300; 2^63; 2^64 - 1].
+Definition sweep_Encoder_EncodeInt32 := esw go_Encoder_EncodeInt32 KInt32 [0; -1; 2^31 - 1; - 2^31].
+Definition sweep_Encoder_EncodeInt64 := esw go_Encoder_EncodeInt64 KInt64 [0; -1; 2^63 - 1; - 2^63].
+Definition sweep_Encoder_EncodeSInt32 := esw go_Encoder_EncodeSInt32 KSInt32 [0; -1; 2^31 - 1; - 2^31; 64; -65].
+Definition sweep_Encoder_EncodeSInt64 := esw go_Encoder_EncodeSInt64 KSInt64 [0; -1; 2^63 - 1; - 2^63; 64; -65].
+Definition sweep_Encoder_EncodeMapEntryHeader := map (fun '(e, tv) => (eshow e, tv)) (filter (fun '(e, (t, v)) =>
+  negb (oeq (abs_enc (go_Encoder_EncodeMapEntryHeader 12 (est_p e) (est_off e) t v)) (Some (enc_map_header e (Z.to_N t) (Z.to_N v))))) (list_prod encs (list_prod etags [0; 1; 127; 128; 2^63 - 1]))).
+Definition res_sweep_Encoder_EncodeBool := Eval vm_compute in sweep_Encoder_EncodeBool. Print res_sweep_Encoder_EncodeBool.
+Definition res_sweep_Encoder_EncodeUInt32 := Eval vm_compute in sweep_Encoder_EncodeUInt32. Print res_sweep_Encoder_EncodeUInt32.
+Definition res_sweep_Encoder_EncodeUInt64 := Eval vm_compute in sweep_Encoder_EncodeUInt64. Print res_sweep_Encoder_EncodeUInt64.
+Definition res_sweep_Encoder_EncodeInt32 := Eval vm_compute in sweep_Encoder_EncodeInt32. Print res_sweep_Encoder_EncodeInt32.
+Definition res_sweep_Encoder_EncodeInt64 := Eval vm_compute in sweep_Encoder_EncodeInt64. Print res_sweep_Encoder_EncodeInt64.
+Definition res_sweep_Encoder_EncodeSInt32 := Eval vm_compute in sweep_Encoder_EncodeSInt32. Print res_sweep_Encoder_EncodeSInt32.
+Definition res_sweep_Encoder_EncodeSInt64 := Eval vm_compute in sweep_Encoder_EncodeSInt64. Print res_sweep_Encoder_EncodeSInt64.
+Definition res_sweep_Encoder_EncodeMapEntryHeader := Eval vm_compute in sweep_Encoder_EncodeMapEntryHeader. Print res_sweep_Encoder_EncodeMapEntryHeader.
